@@ -1186,6 +1186,24 @@ Proof.
     destruct Gb as [_ S]; apply (stream_ok_eq p p' S); exact Hok.
 Qed.
 
+(* site 32 is genuinely reachable from an RI state whose active stream is NOT an input-stream type
+   (here: stream = Some 1 = BeginRequest, fed a Stdin header of the request's id): both machines panic at 32.
+   Such a state cannot be produced through the crate's API (set_stream takes Option<Stream>, and
+   into_stream_parser / new start at the role's first input stream, see [init_stream_ok]). *)
+Example site32_reachable :
+  let p := mkSp (zeros 16) 0 0 0 0 [] 0 (mkReq 1 1 0 []) (Some 1) 0 0 SSkip in
+  RI p /\ ~ stream_ok p /\
+  sparse 10 p [1; 5; 0; 1; 0; 0; 0; 0] None = StPanic 32 /\
+  aparse 10 (abs p) [1; 5; 0; 1; 0; 0; 0; 0] None = APanicked 32.
+Proof.
+  cbn zeta. split; [|split; [|split]].
+  - unfold RI. cbn [buffer parsed_start gap_start raw_start free_start output output_start].
+    repeat split; try lia; apply N.le_0_l.
+  - unfold stream_ok. cbn [stream]. vm_compute. discriminate.
+  - vm_compute. reflexivity.
+  - vm_compute. reflexivity.
+Qed.
+
 Print Assumptions compress_RI.
 Print Assumptions compress_abs.
 Print Assumptions consume_stream_RI.
